@@ -62,6 +62,7 @@ pub struct Inner {
     pub p_timer: u64,
     pub p_spurious: u64,
     pub p_preempt: u64,
+    pub p_atomic: u64,
     /// threads preempted right now while holding a mutex: locked blocks stay instantaneous, no
     /// timer fires early and no spurious wake-up happens meanwhile
     pub holding: usize,
@@ -107,13 +108,15 @@ pub struct Config {
     pub p_stay: u64,
     /// per mille: a thread that has just taken a mutex is preempted while holding it
     pub p_preempt: u64,
+    /// per mille: a thread about to access an `AtomicBool` (holding no mutex) is preempted first
+    pub p_atomic: u64,
     pub max_steps: u64,
     pub log: bool,
 }
 
 impl Default for Config {
     fn default() -> Self {
-        Config { seed: 1, p_timer: 30, p_spurious: 0, p_stay: 0, p_preempt: 0, max_steps: 2_000_000, log: true }
+        Config { seed: 1, p_timer: 30, p_spurious: 0, p_stay: 0, p_preempt: 0, p_atomic: 0, max_steps: 2_000_000, log: true }
     }
 }
 
@@ -281,6 +284,7 @@ impl Runtime {
                 p_timer: cfg.p_timer,
                 p_spurious: cfg.p_spurious,
                 p_preempt: cfg.p_preempt,
+                p_atomic: cfg.p_atomic,
                 holding: 0,
                 steps: 0,
                 max_steps: cfg.max_steps,
@@ -398,6 +402,18 @@ impl Runtime {
             self.inner.lock().unwrap().holding += 1;
             self.switch(me, TState::Runnable);
             self.inner.lock().unwrap().holding -= 1;
+        }
+    }
+
+    /// before an `AtomicBool` access (no mutex held): with probability `p_atomic` others run first
+    pub fn maybe_yield_atomic(&self, me: usize) {
+        let go = {
+            let mut g = self.inner.lock().unwrap();
+            g.p_atomic > 0 && !g.aborted && (g.rand() % 1000) < g.p_atomic
+        };
+        if go {
+            self.log(me, "atomic-yield".into());
+            self.switch(me, TState::Runnable);
         }
     }
 
